@@ -145,6 +145,21 @@ def _fill(prog, rep):
         M = _measure_ok(nfs, TEXT, W)
         r2.check(M is not None, "fits", "fill's shortcut requires len(text) < width", "measure %s" % M,
                  "fill's size test is %s; expected text.len() < options.width (or display_width)" % [(k, p.show(D)) for k, p in nfs])
+    # every value fill can return is one of the two: no third way out that bypasses both
+    slow = ("call", "crate::fill::fill_slow_path", (TEXT, OPT))
+    outs = set()
+    work = [s.val((0, ()), r, "term") for r in body.cfg.returns]
+    seen_phi = set()
+    while work:
+        v = work.pop()
+        if v[0] == "phi" and v not in seen_phi:
+            seen_phi.add(v)
+            work.extend(s.phi_inputs(v).values())
+            continue
+        outs.add(prog.simp(v, body))
+    extra = [v for v in outs if v not in (want, slow)]
+    r4.check(not extra, "only-two-results", "fill returns either the shortcut value or fill_slow_path(text, options)", "%d result values" % len(outs),
+             "fill can also return %s: a path that bypasses both the shortcut and fill_slow_path" % [D(v) for v in extra][:2])
     fw = [(b, [prog.simp(a, body) for a in s.call_args(b)]) for b, t, c in body.calls() if c.name == "crate::fill::fill_slow_path"]
     r4.check(len(fw) == 1 and fw[0][1] == [TEXT, OPT], "slow-args", "otherwise fill_slow_path receives the same text and options", "",
              "fill_slow_path is called with %s" % [[D(x) for x in f[1]] for f in fw])
@@ -189,3 +204,15 @@ def run(prog, rep):
             rep.ok("C05.R3", "crate", "lemma %s holds in this run" % l, "evaluated: ok", nontrivial=False)
         else:
             rep.violation("C05.R3", "crate", "lemma:" + l, "crate", "lemma %s is %s in this run" % (l, st))
+
+
+def _lemma(prog):
+    from ..engine import Report
+    rep = Report("C05")
+    rep.set_config(prog.config)
+    guarded(rep, "C05.R1", WSL, lambda: _wsl(prog, rep))
+    guarded(rep, "C05.R1", FILL, lambda: _fill(prog, rep))
+    return not rep.violations
+
+
+lemmas.register("C05", _lemma)
